@@ -96,7 +96,7 @@ impl Term {
             Term::Hole => json!({"k": "hole"}),
             Term::Num(s) => json!({"k": "num", "v": cps(s)}),
             Term::Var(s) => json!({"k": "var", "v": cps(s)}),
-            Term::Const(o) => json!({"k": "const", "v": o + 1}),
+            Term::Const(o) => json!({"k": "const", "c": o + 1}),
             Term::Un(o, a) => json!({"k": "un", "o": o + 1, "a": a.to_json()}),
             Term::Bin(o, l, r) => json!({"k": "bin", "o": o + 1, "l": l.to_json(), "r": r.to_json()}),
         }
